@@ -654,21 +654,25 @@ func createConnHandler(
 		fn := func(_ interface{}, stream grpc.ServerStream) error {
 			ctx := stream.Context()
 
-			args := dynamicpb.NewMessage(argsDesc)
-			if err := stream.RecvMsg(args); err != nil {
-				return err
-			}
-
 			if md, ok := metadata.FromIncomingContext(ctx); ok {
 				ctx = metadata.NewOutgoingContext(ctx, md)
 			}
 
+			// The backend stream is opened before the first message: a
+			// client stream may carry no message at all, and the backend
+			// may reply before it reads.
 			clientStream, err := cc.NewStream(ctx, sd, method)
 			if err != nil {
 				return err
 			}
-			if err := clientStream.SendMsg(args); err != nil {
-				return err
+			if !sd.ClientStreams {
+				args := dynamicpb.NewMessage(argsDesc)
+				if err := stream.RecvMsg(args); err != nil {
+					return err
+				}
+				if err := clientStream.SendMsg(args); err != nil {
+					return err
+				}
 			}
 
 			var inErr error
